@@ -26,6 +26,7 @@ structure St where
   bms : Array (Option ABitmap) := #[]
   gms : Array (Option GMem) := #[]
   pend : Array (List Region) := #[]          -- regions collected for `g.build`
+  regs : Array (Option Mem) := #[]           -- region id ↦ its memory: maps derived by insert/remove share regions (`Arc`)
   rds : Array (Option Reader) := #[]
   wrs : Array (Option Writer) := #[]
 
@@ -299,7 +300,12 @@ def fmtMapErr : GMem.MapErr → String
 
 def fmtLayout (g : GMem) : String := ",".intercalate (g.map fun r => s!"{r.start}:{r.len}:{r.id}")
 
-def stepGuest (st : St) (op : String) (kv : KV) : St × String :=
+/-- regions are shared between maps (`Arc<GuestRegionMmap>`): the driver keeps the one
+    memory of each region id and refreshes / writes back a map's view around every op -/
+def refresh (st : St) (g : GMem) : GMem := g.map fun r => match tget st.regs r.id with | some m => { r with mem := m } | none => r
+def writeBack (st : St) (g : GMem) : St := { st with regs := g.foldl (fun a r => tset a r.id r.mem) st.regs }
+
+def stepGuest1 (st : St) (op : String) (kv : KV) : St × String :=
   let mi := kv.nat "m"
   match op with
   | "g.begin" => ({ st with pend := (if mi < st.pend.size then st.pend else st.pend ++ Array.replicate (mi + 1 - st.pend.size) []).set! mi [] }, "ok")
@@ -309,7 +315,7 @@ def stepGuest (st : St) (op : String) (kv : KV) : St × String :=
     | some r => ({ st with pend := st.pend.modify mi (· ++ [r]) }, "ok")
   | "g.build" =>
     match GMem.fromRegions (st.pend.getD mi []) with
-    | .ok (.ok g) => ({ st with gms := tset st.gms mi g }, s!"ok {fmtLayout g}")
+    | .ok (.ok g) => (writeBack { st with gms := tset st.gms mi g } g, s!"ok {fmtLayout g}")
     | .ok (.error e) => (st, fmtMapErr e)
     | .err e => (st, fmtErr e)
     | .panic => (st, "panic")
@@ -317,8 +323,9 @@ def stepGuest (st : St) (op : String) (kv : KV) : St × String :=
   match tget st.gms mi with
   | none => (st, "bad-id")
   | some g =>
+    let g := refresh st g
     let a := kv.nat "a"
-    let putG (g' : GMem) : St := { st with gms := tset st.gms mi g' }
+    let putG (g' : GMem) : St := writeBack { st with gms := tset st.gms mi g' } g'
     let rb (r : Res Bool) : St × String := (st, fmtRes r (fun x => s!"ok {x}"))
     match op with
     | "g.insert" =>
@@ -326,7 +333,7 @@ def stepGuest (st : St) (op : String) (kv : KV) : St × String :=
       | none => (st, "err invalidregion")
       | some r =>
         match g.insertRegion r with
-        | .ok (.ok g') => ({ st with gms := tset st.gms (kv.nat "d") g' }, s!"ok {fmtLayout g'}")
+        | .ok (.ok g') => (writeBack { st with gms := tset st.gms (kv.nat "d") g' } g', s!"ok {fmtLayout g'}")
         | .ok (.error e) => (st, fmtMapErr e)
         | .err e => (st, fmtErr e)
         | .panic => (st, "panic")
@@ -373,11 +380,11 @@ def stepGuest (st : St) (op : String) (kv : KV) : St × String :=
       | some rd =>
         if op = "g.rvf" then
           let (g', rd', r) := g.readVolatileFrom a rd (kv.nat "count")
-          ({ st with gms := tset st.gms mi g', rds := tset st.rds (kv.nat "rd") rd' },
+          ({ putG g' with rds := tset st.rds (kv.nat "rd") rd' },
             fmtRes r (fun n => s!"ok n={n}") ++ s!" {fmtGMem g'} left={rd'.avail.length}")
         else
           let (g', rd', r) := g.readExactVolatileFrom a rd (kv.nat "count")
-          ({ st with gms := tset st.gms mi g', rds := tset st.rds (kv.nat "rd") rd' },
+          ({ putG g' with rds := tset st.rds (kv.nat "rd") rd' },
             fmtRes r (fun _ => "ok") ++ s!" {fmtGMem g'} left={rd'.avail.length}")
     | "g.wvt" | "g.wavt" =>
       match tget st.wrs (kv.nat "wr") with
@@ -443,6 +450,8 @@ def stepGuest (st : St) (op : String) (kv : KV) : St × String :=
               ({ st with wrs := tset st.wrs (kv.nat "wr") wr' },
                 fmtRes x (fun _ => "ok") ++ s!" sink={hexEncode wr'.buf} pos={wr'.pos}")
         | _ => (st, "bad-op")
+
+def stepGuest (st : St) (op : String) (kv : KV) : St × String := stepGuest1 st op kv
 
 def step (st : St) (line : String) : St × String :=
   let (op, kv) := parseLine line
